@@ -350,12 +350,22 @@ func (g *genState) iterOp() {
 }
 
 func (g *genState) gcOp() {
-	if g.r.Chance(60) {
+	// scan and apply are often separated by other operations (iterator progress, closes, writes):
+	// the collector paused between its lock-free scan and its write transaction
+	switch x := g.r.Intn(100); {
+	case x < 40:
 		g.emit("gcscan")
-	}
-	if !g.open || g.r.Chance(10) {
-		g.emit("gcapply")
-		g.emit("q fresh %d gnum", g.r.Intn(2))
+		if !g.open {
+			g.emit("gcapply")
+			g.emit("q fresh %d gnum", g.r.Intn(2))
+		}
+	case x < 70:
+		g.emit("gcscan")
+	default:
+		if !g.open || g.r.Chance(10) {
+			g.emit("gcapply")
+			g.emit("q fresh %d gnum", g.r.Intn(2))
+		}
 	}
 }
 
@@ -413,6 +423,12 @@ func (g *genState) genCase(id string) {
 	if r.Chance(50) {
 		g.nkeys = append(g.nkeys, []byte{})
 	}
+	if r.Chance(60) { // keys whose escaped form differs from the raw form in the first bytes
+		g.nkeys = append(g.nkeys, []byte{0x01, hx.Pick(r, []byte{0x61, 0xff, 0x02})})
+		if r.Chance(50) {
+			g.nkeys = append(g.nkeys, []byte{0x61, 0x01, 0x61}, []byte{0x00, 0xff})
+		}
+	}
 	g.lkeys = nil
 	for i := 0; i < 2+r.Intn(4); i++ {
 		g.lkeys = append(g.lkeys, g.randLKey())
@@ -422,6 +438,26 @@ func (g *genState) genCase(id string) {
 	g.inits = map[string]bool{}
 	wantIters := g.weight(30, "C07 C08 C01 C02", 3)
 	wantInit := g.weight(6, "C19", 10)
+	if r.Chance(g.weight(12, "C07 C08", 3)) {
+		// change iterators created on never-written tables (revision 0), kept behind the others
+		g.emit("begin 0,1")
+		g.open = true
+		g.locked = map[int]bool{0: true, 1: true}
+		g.sh.begin(g.locked)
+		for tb := 0; tb < 2; tb++ {
+			if r.Chance(70) {
+				g.emit("changes %d %d", g.nextIter, tb)
+				g.iters[g.nextIter] = tb
+				g.itSnap[g.nextIter] = 0
+				g.nextIter++
+			}
+		}
+		g.emit("commit %d", g.nextSnap)
+		g.snaps = append(g.snaps, g.nextSnap)
+		g.nextSnap++
+		g.sh.commit()
+		g.open = false
+	}
 	ntxn := 3 + r.Intn(8)
 	for t := 0; t < ntxn; t++ {
 		// ---- a write transaction
@@ -526,6 +562,22 @@ func (g *genState) genCase(id string) {
 		}
 		g.open = false
 		// ---- between transactions
+		if len(g.iters) > 0 && r.Chance(g.weight(8, "C08", 5)) {
+			// an iterator advances while the collector sits between its scan and its write transaction
+			for id := 0; id < g.nextIter; id++ {
+				if tb, ok := g.iters[id]; ok && !g.fresh[id] {
+					g.emit("next %d fresh 1", id)
+					g.emit("gcscan")
+					g.emit("next %d fresh all", id)
+					g.itSnap[id] = len(g.snaps)
+					g.emit("gcapply")
+					g.emit("gcscan")
+					g.emit("q fresh %d gnum", tb)
+					g.emit("gcapply")
+					break
+				}
+			}
+		}
 		for n := r.Intn(5); n > 0; n-- {
 			switch x := r.Intn(100); {
 			case x < 25:
